@@ -9,6 +9,8 @@ import JunoModel.C11.ProofsEvents
 import JunoModel.C11.ProofsWsLoop
 import JunoModel.C11.ProofsTxRules
 import JunoModel.C11.ModelNullId
+import JunoModel.C11.ModelValidateWalk
+import JunoModel.C11.ModelGateRace
 /-!
 C11 — property theorems (statements only; proofs in `Proofs*.lean`, vocabulary in `ModelSpec.lean`,
 model of the code in `Model*.lean`).
@@ -799,5 +801,48 @@ theorem notification_still_silent_after_repair :
       (singleInput (request "subtract" [("params", .arr [.num "42", .num "23"]), ("id", .null), ("ID", .num "7")]))).body
       = some (.obj [("jsonrpc", .str "2.0"), ("result", .arr [.num "42", .num "23"]), ("id", .num "7")]) := by
   constructor <;> rfl
+
+/-! ## 16. `validateParam` below the first level of a nested container (`ModelValidateWalk.lean`, round 6 follow-up) -/
+
+/-- For a handler parameter whose type is ANY chain of slices, arrays and maps around a validated struct — or around
+a pointer to it — (`[][]T`, `[][2]T`, `map[string][]T`, `[][][]*T`, … of any depth): the request is accepted iff
+every struct at the leaves satisfies its rules; one invalid element at any depth makes it bad parameters. -/
+theorem validate_walk_reaches_nested_structs (ks : List VWalk.Kind) (h : ∀ k ∈ ks, k ≠ .ptr) (leaves : List Bool) :
+    (VWalk.accepted ks leaves = true ↔ ∀ b ∈ leaves, b = true) ∧
+    (VWalk.accepted (ks ++ [.ptr]) leaves = true ↔ ∀ b ∈ leaves, b = true) := by
+  simp [VWalk.accepted, VWalk.descends_of_no_ptr ks h, VWalk.descends_append_ptr ks h]
+
+/-- The statement has content: the "optimised" walk that returns early for a slice whose element kind is not struct,
+pointer or map stops above `[][]T`, `[][2]T` and `map[string][][]T` (an invalid inner element is accepted), while the
+code descends; and the code as it is does NOT follow a pointer to a container (`*[]T`, `[]*[]T`). -/
+theorem validate_walk_early_return_skips_inner_containers :
+    VWalk.descendsEarlyReturn [.slice, .slice] = false ∧ VWalk.descends [.slice, .slice] = true ∧
+    VWalk.descendsEarlyReturn [.slice, .array] = false ∧ VWalk.descends [.slice, .array] = true ∧
+    VWalk.descendsEarlyReturn [.map, .slice, .slice] = false ∧ VWalk.descends [.map, .slice, .slice] = true ∧
+    VWalk.accepted [.slice, .slice] [true, true, false, true] = false ∧
+    VWalk.descends [.ptr, .slice] = false ∧ VWalk.descends [.slice, .ptr, .slice] = false := by decide
+
+/-! ## 17. `Gate.Acquire` when `Release()` and the end of the waiter's context race (`ModelGateRace.lean`, follow-up) -/
+
+/-- In EVERY interleaving of callers reaching the select, owners releasing (the runtime handing the slot to a parked
+sender, also one whose context is already done), contexts ending before or after the hand-over, parked callers giving
+up and granted callers returning: the tokens in the semaphore are exactly the callers that own a slot or are about to
+return with one, never more than the capacity. Hence on a quiescent gate (nobody granted-but-not-returned)
+`Running()` = callers that returned nil and have not released — 0 when nothing is in flight. -/
+theorem gate_tokens_equal_owners_in_every_interleaving (c : Nat) (ops : List GateRace.Op) :
+    let s := GateRace.run false { cap := c } ops
+    s.tokens = s.owners + s.grantedLive + s.grantedDone ∧ s.tokens ≤ c := by
+  have h := GateRace.run_inv { cap := c } ops ⟨by simp, by simp⟩
+  exact ⟨h.1, Nat.le_trans h.2 (Nat.le_of_eq (GateRace.run_cap false { cap := c } ops))⟩
+
+/-- The regression witness of the follow-up: the variant that returns `ctx.Err()` after its token went in (without
+taking it out) loses the slot — Gate(1): one owner, one parked caller, `Release` hands over, the context ends, the
+caller returns its error: one token in the semaphore, no owner, nobody waiting (`Running() = 1` for ever); the code
+on the same schedule ends with one owner for the one token. -/
+theorem gate_leaky_acquire_loses_the_slot :
+    let ops := [GateRace.Op.acquire, .acquire, .releaseToLive, .cancelGranted, .returnDone]
+    (GateRace.run true { cap := 1 } ops).tokens = 1 ∧ (GateRace.run true { cap := 1 } ops).owners = 0 ∧
+    (GateRace.run true { cap := 1 } ops).grantedLive + (GateRace.run true { cap := 1 } ops).grantedDone = 0 ∧
+    (GateRace.run false { cap := 1 } ops).tokens = 1 ∧ (GateRace.run false { cap := 1 } ops).owners = 1 := by decide
 
 end Juno.C11.Props
